@@ -242,6 +242,8 @@ struct Outcome {
     file_metrics: Vec<DeduplicationMetrics>,
     session_metrics: Option<DeduplicationMetrics>,
     xorbs_of_first_file: Vec<MerkleHash>,
+    /// dead once the session and every background upload task of it (each holds the session) are gone
+    alive: Option<std::sync::Weak<FileUploadSession>>,
 }
 
 fn xorb_dir(store: &Path) -> PathBuf { store.join("xorbs") }
@@ -283,7 +285,7 @@ async fn run_session(cfg: Arc<TranslatorConfig>, tp: Arc<ThreadPool>, store: Opt
 }
 
 async fn run_session_opts(cfg: Arc<TranslatorConfig>, tp: Arc<ThreadPool>, store: Option<&Path>, files: &[FileIn], fault: &Fault, opts: &Opts) -> Outcome {
-    let mut out = Outcome { error: None, pointers: vec![], file_metrics: vec![], session_metrics: None, xorbs_of_first_file: vec![] };
+    let mut out = Outcome { error: None, pointers: vec![], file_metrics: vec![], session_metrics: None, xorbs_of_first_file: vec![], alive: None };
     let quick = opts.one_call || opts.abandon == Some(true);
     let block = if quick { usize::MAX } else { *deduplication::constants::MAX_XORB_BYTES };
     let cfg2 = cfg.clone();
@@ -304,6 +306,7 @@ async fn run_session_opts(cfg: Arc<TranslatorConfig>, tp: Arc<ThreadPool>, store
         Ok(s) => s,
         Err(e) => { out.error = Some(format!("FileUploadSession::new: {e}")); return out; },
     };
+    out.alive = Some(Arc::downgrade(&session));
     if let Some(g) = &opts.ghost {
         let mut cleaner = session.start_clean(g.name.clone());
         for (bi, b) in g.data.chunks(block).enumerate() {
@@ -560,8 +563,20 @@ async fn run_history(cx: &mut Ctx, name: &str, steps: &[Step]) -> Option<String>
         }
         trail.push(format!("session {}{}: files {} with {} -> {}", si + 1, opts_text(&st.opts), files_text.join(", "), fault_text(&st.fault), o.error.clone().map(|e| format!("error from {e}")).unwrap_or("every call Ok".into())));
         eprintln!("[{name}] {}", trail.last().unwrap());
+        // a session that returned an error may have uploads running in the background (e.g. spawned by the very call that failed);
+        // they finish on their own.  Wait for them (the session object dies with its last task), except after a session that was
+        // dropped with pending uploads on purpose: there the next session is meant to overlap with them.
         let uploads_may_linger = lingering;
-        lingering = o.error.is_some() && (st.opts.one_call || st.opts.abandon == Some(true));
+        lingering = false;
+        if o.error.is_some() {
+            if st.opts.abandon == Some(true) {
+                lingering = true;
+            } else if let Some(w) = &o.alive {
+                let mut n = 0;
+                while w.strong_count() > 0 && n < 1000 { tokio::time::sleep(Duration::from_millis(10)).await; n += 1; }
+                lingering = w.strong_count() > 0;
+            }
+        }
         let policy_text = if cx.policy == GlobalDedupPolicy::Always { ", global dedup policy Always" } else { "" };
         let ctx = format!("config {}{policy_text}; history '{name}' (one process, one store, one shard cache): {}", cx.cfg_name, trail.join(" | "));
         match &o.error {
